@@ -49,6 +49,10 @@ fn run_hist<D: Driver>(opts: &RunOpts) -> i32 {
         );
         println!("  history: {}", w.names.join("; "));
     }
+    if let Some(n) = outcome.ctx.counters.get("abandoned_histories") {
+        // leak checkers must not blame the crate for instances the harness forgot on purpose
+        eprintln!("FIV-ABANDONED-HISTORIES {}", n);
+    }
     for (k, (n, ex)) in &outcome.other_fails {
         eprintln!("NOTE other-property={} count={} example={}", k, n, ex);
     }
